@@ -1,5 +1,24 @@
-//! Conformance harness for property C09, see /verif/DESIGN.md.
+//! Conformance harness for property C09 (redirections), see /verif/DESIGN.md
+//! and spec/Redir.tla, spec/RedirAbs.tla, spec/Trace_Redir.tla.
+mod probe;
+mod rnd;
+mod scen;
+
 fn main() {
-    eprintln!("yv-c09: not implemented yet");
-    std::process::exit(2);
+    let args: Vec<String> = std::env::args().collect();
+    if args.len() < 2 {
+        eprintln!("usage: yv-c09 <replay|random|script> ...");
+        std::process::exit(2);
+    }
+    let rest = &args[2..];
+    let code = match args[1].as_str() {
+        "replay" => scen::replay(rest),
+        "random" => rnd::random(rest),
+        "script" => scen::script(rest),
+        other => {
+            eprintln!("unknown subcommand {other}");
+            2
+        }
+    };
+    std::process::exit(code);
 }
